@@ -223,6 +223,24 @@ MUTANTS = [
     ('C20', 'mapping-new-oid-without-lock', MS,
      "    @ZODB.utils.locked(opened)\n    def new_oid(self):",
      "    def new_oid(self):"),
+    ('C16', 'demo-loadbefore-ignores-base', DS,
+     "        if result is None:\n            # The oid *was* in the changes, but there aren't any\n            # earlier records. Maybe there are in the base.\n            try:\n                result = self.base.loadBefore(oid, tid)",
+     "        if result is None:\n            # The oid *was* in the changes, but there aren't any\n            # earlier records. Maybe there are in the base.\n            try:\n                result = None"),
+    ('C16', 'demo-end-tid-not-joined', DS,
+     "                    result = result[:2] + (\n                        end_tid if end_tid != maxtid else None,\n                    )",
+     "                    pass"),
+    ('C16', 'demo-store-writes-base', DS,
+     "        else:\n            self.changes.store(oid, serial, data, '', transaction)\n\n    def storeBlob",
+     "        else:\n            (self.base if oid[-1:] == b'\\x01' else self.changes).store(oid, serial, data, '', transaction)\n\n    def storeBlob"),
+    ('C16', 'demo-gettid-changes-only', DS,
+     "        except ZODB.POSException.POSKeyError:\n            return self.base.getTid(oid)",
+     "        except ZODB.POSException.POSKeyError:\n            raise"),
+    ('C16', 'demo-iterator-changes-only', DS,
+     "        yield from self.base.iterator(start, end)\n",
+     ""),
+    ('C16', 'demo-history-misses-base', DS,
+     "        size -= len(r)\n        if size:",
+     "        size -= len(r)\n        if size and not r:"),
 ]
 
 
